@@ -394,6 +394,18 @@ int cmdInvestigate(int argc, char** argv) {
   return 0;
 }
 
+int cmdClassify(int argc, char** argv) {
+  // classify <prop> <tier> <baseSeed> <index> : one isolated execution, prints the outcome class and signature
+  if (argc < 6) return 2;
+  Harness* h = findHarness(argv[2]); if (!h) return 2;
+  Tier t = std::string(argv[3]) == "thorough" ? THOROUGH : QUICK;
+  Plan p = planFor(h, t, strtoull(argv[4], nullptr, 10), atol(argv[5]));
+  Outcome o = runIsolated(h, p);
+  if (!o.violated) { printf("CLASS none\n"); return 0; }
+  printf("CLASS cls=%s sig=%s\n", o.cls.c_str(), o.sig.c_str());
+  return 0;
+}
+
 int cmdReplay(int argc, char** argv) {
   if (argc < 3) return 2;
   bool verbose = argc > 3 && std::string(argv[3]) == "-v";
@@ -467,6 +479,7 @@ int main(int argc, char** argv) {
   if (c == "plan") return cmdPlan(argc, argv);
   if (c == "investigate") return cmdInvestigate(argc, argv);
   if (c == "replay") return cmdReplay(argc, argv);
+  if (c == "classify") return cmdClassify(argc, argv);
   if (c == "info") return cmdInfo(argc, argv);
   if (c == "merge") return cmdMerge(argc, argv);
   fprintf(stderr, "unknown command %s\n", c.c_str());
